@@ -149,7 +149,10 @@ impl<S: TextRenderer> Text<'_, S> {
                 }
             };
 
-            position.y += self.line_height();
+            // the position below the last line is never used and might not be representable
+            if lines.peek().is_some() {
+                position.y += self.line_height();
+            }
 
             Some((line, p))
         })
